@@ -43,6 +43,39 @@ Theorem C08_finished_update_reached_snapshot : forall cf tr p n snap b e,
 Proof. exact finished_update_reached_snapshot. Qed.
 Print Assumptions C08_finished_update_reached_snapshot.
 
+(* A link that is connected through slot x and not suspended - in its OWN eyes, with no
+   suspension request of its own still on its way to the gate - is in `updates`, so the next
+   snapshot of any publisher contains it; no matter what other links and clones are doing. *)
+Theorem C08_active_link_in_updates : forall cf tr l x,
+  cf_follow cf = false -> link_active (run cf tr) l x -> In (x, l) (upd (run cf tr)).
+Proof. exact active_link_in_updates. Qed.
+Print Assumptions C08_active_link_in_updates.
+
+(* Exactly once while connected, at the level of schedules: if l is connected and unsuspended
+   when publisher p starts its n-th update_data, then on EVERY continuation of the schedule,
+   once that call has returned, n has been handed to l - unless l itself dropped its receiver
+   (disconnected) meanwhile. With C08_at_most_once_in_order: exactly once, in order. *)
+Theorem C08_exactly_once_while_connected : forall cf tr1 tr2 l x p n,
+  cf_follow cf = false ->
+  link_active (run cf tr1) l x ->
+  pubs (run cf tr1) p = PIdle n -> pub_alive (run cf tr1) p = true ->
+  let s2 := run cf (tr1 ++ ABegin p :: tr2) in
+  (exists m, pubs s2 p = PIdle m) ->
+  In (x, l, p, n) (delivered s2) \/ ch_rx (chans s2 x) = false.
+Proof. exact exactly_once_while_connected. Qed.
+Print Assumptions C08_exactly_once_while_connected.
+
+(* Termination reaches every publisher: on every schedule, a live clone that was attached
+   when the root handled Terminate - or ANY live clone once the root gate has been dropped -
+   gets Err(Terminated) from process() by the time it has drained its command queue. *)
+Theorem C08_terminate_reaches_clones : forall cf tr c,
+  let s := run cf tr in
+  c_alive (clones s c) = true ->
+  (root_term s = true /\ c_att (clones s c) = true) \/ root_dropped s = true ->
+  c_term (clones (clone_drain cf (S (length (c_q (clones s c)))) s c) c) = true.
+Proof. exact terminate_reaches_clones. Qed.
+Print Assumptions C08_terminate_reaches_clones.
+
 (* non-vacuity: two publishers, a queue link and a direct link, an update in flight
    (blocked on the full queue) while the direct link re-subscribes *)
 Example C08_example :
@@ -55,5 +88,8 @@ Example C08_example :
              ARecv 0; ABegin 0; ADeliver 0; ADeliver 0; AEnd 0] in
   lseqs_of 1 0 (delivered (run cf tr)) = [1; 0] /\ lseqs_of 1 1 (delivered (run cf tr)) = [0] /\
   lseqs_of 0 0 (delivered (run cf tr)) = [1; 0] /\ length (completed (run cf tr)) = 3%nat /\
-  upd (run cf tr) = [(0, 0); (2, 1)].
+  upd (run cf tr) = [(0, 0); (2, 1)] /\
+  link_active (run cf tr) 1 2 /\ pubs (run cf tr) 0 = PIdle 2 /\ pub_alive (run cf tr) 1 = true /\
+  (let s := run cf (tr ++ [ASendTerm; ARoot]) in
+   root_term s = true /\ c_alive (clones s 1) = true /\ c_att (clones s 1) = true /\ c_term (clones s 1) = false).
 Proof. vm_compute. repeat split; reflexivity. Qed.
